@@ -36,7 +36,7 @@ VARIANTS = [
          [(SL, 'NUMBER = r"[-+]?[0-9]*\\.[0-9]+([eE][-+]?[0-9]+)?"', 'NUMBER = r"[-+]?[0-9]*\\.[0-9]+([eE][0-9]+)?"')],
          ("C01.1", "number-format:float"), P),
     fire("c01-int-converted-as-float",
-         [(SL, "        token.value = int(token.value)\n        return token\n\n    def NUMBER", "        token.value = float(token.value)\n        return token\n\n    def NUMBER")],
+         [(SL, "            token.value = int(token.value)\n        except ValueError:", "            token.value = float(token.value)\n        except ValueError:")],
          ("C01.1", "INT:conversion"), P),
     fire("c01-identifier-regex-wider",
          [(ID, 'valid_identifier_regex = re.compile("^[a-zA-Z_][a-zA-Z0-9_]*$")', 'valid_identifier_regex = re.compile("^[a-zA-Z_][a-zA-Z0-9_-]*$")')],
